@@ -28,6 +28,9 @@ var All = map[string]*Prop{}
 
 func register(p *Prop) {
 	run, id := p.Run, p.Spec.ID
+	if t := round5Text[id]; t != "" {
+		p.Spec.Explanation += " Added after the fifth blind round (per-file seeds, DESIGN 10.12): " + t
+	}
 	p.Run = func(c *report.Ctx) {
 		run(c)
 		if rules := round5Rules[id]; len(rules) > 0 {
